@@ -195,3 +195,101 @@ pub fn corpus_programs() -> Vec<String> {
     v.dedup();
     v
 }
+
+/// `SELECT DISTINCT ON (k..)` keeps, per value of k, the first row of the block's own ORDER BY, and
+/// that ORDER BY must begin with k. Returns a description of the first block that has no ORDER BY
+/// of its own (before the block ends: closing parenthesis, set operator, end of statement), or
+/// whose ORDER BY is not longer than the key list when `need_sort` (the group's pipeline sorted).
+pub fn distinct_on_lint(sql: &str, need_sort: bool) -> Option<String> {
+    let b = sql.as_bytes();
+    let mut from = 0;
+    while let Some(p) = sql[from..].find("SELECT DISTINCT ON (") {
+        let open = from + p + "SELECT DISTINCT ON ".len();
+        // key list
+        let (mut depth, mut j) = (0i32, open);
+        while j < b.len() {
+            match b[j] {
+                b'(' => depth += 1,
+                b')' => {
+                    depth -= 1;
+                    if depth == 0 {
+                        break;
+                    }
+                }
+                _ => {}
+            }
+            j += 1;
+        }
+        let keys = &sql[open + 1..j.min(sql.len())];
+        let nkeys = top_level_pieces(keys);
+        // rest of the block
+        let (mut depth, mut k, mut in_str) = (0i32, j + 1, false);
+        let mut end = sql.len();
+        while k < b.len() {
+            let c = b[k];
+            if c == b'\'' {
+                in_str = !in_str;
+            } else if !in_str {
+                if c == b'(' {
+                    depth += 1;
+                } else if c == b')' {
+                    depth -= 1;
+                    if depth < 0 {
+                        end = k;
+                        break;
+                    }
+                } else if depth == 0 && (sql[k..].starts_with(" UNION ") || sql[k..].starts_with(" EXCEPT ") || sql[k..].starts_with(" INTERSECT ")) {
+                    end = k;
+                    break;
+                }
+            }
+            k += 1;
+        }
+        let block = &sql[j + 1..end];
+        // ORDER BY at depth 0 of the block
+        let (mut depth, mut ob) = (0i32, None);
+        let bb = block.as_bytes();
+        let mut q = 0;
+        while q < bb.len() {
+            match bb[q] {
+                b'(' => depth += 1,
+                b')' => depth -= 1,
+                _ => {
+                    if depth == 0 && block[q..].starts_with(" ORDER BY ") {
+                        ob = Some(q + 10);
+                    }
+                }
+            }
+            q += 1;
+        }
+        match ob {
+            None => return Some(format!("DISTINCT ON ({keys}) block has no ORDER BY: `{}`", block.chars().take(160).collect::<String>())),
+            Some(o) => {
+                let tail = &block[o..];
+                let tail = tail.split(" LIMIT ").next().unwrap_or(tail).split(" OFFSET ").next().unwrap_or(tail);
+                let norder = top_level_pieces(tail);
+                if norder < nkeys || (need_sort && norder <= nkeys) {
+                    return Some(format!("DISTINCT ON ({keys}) block is ordered by `{tail}` only"));
+                }
+            }
+        }
+        from = j;
+    }
+    None
+}
+
+fn top_level_pieces(s: &str) -> usize {
+    let (mut depth, mut n, mut any) = (0i32, 0usize, false);
+    for c in s.chars() {
+        match c {
+            '(' => depth += 1,
+            ')' => depth -= 1,
+            ',' if depth == 0 => n += 1,
+            _ => {}
+        }
+        if !c.is_whitespace() {
+            any = true;
+        }
+    }
+    if any { n + 1 } else { 0 }
+}
